@@ -70,8 +70,11 @@ def gen_op(rng, gids, live):
     n, a, b = rng.choice(NIDS), rng.choice(NIDS), rng.choice(NIDS)
     if k < 14:
         return {'op': 'add_node', 'g': g, 'nid': n, 'label': rng.choice(rawgraph.CLASSES), 'props': rawgraph.gen_props(rng, 2)}
-    if k < 20:
+    if k < 17:
         return {'op': 'delete_node', 'g': g, 'nid': n}
+    if k < 20:
+        # a node copied from another graph: its properties are read there and handed to add_node here
+        return {'op': 'copy_node', 'g': g, 'from': rng.choice(gids), 'nid': n}
     if k < 30:
         return {'op': 'add_link', 'g': g, 'a': a, 'b': b, 'rel': rng.choice(rawgraph.RELS), 'props': rawgraph.gen_props(rng, 1)}
     if k < 36:
@@ -119,6 +122,9 @@ def apply(imp, cls, op):
         return g.add_node(node_id=op['nid'], label=op['label'], props=dict(op['props']) or None)
     if o == 'delete_node':
         return g.delete_node(node_id=op['nid'])
+    if o == 'copy_node':
+        labels, props = cls(graph_id=op['from'], importer=imp).get_node_properties(node_id=op['nid'])
+        return g.add_node(node_id=op['nid'], label=labels[0], props=props)
     if o == 'add_link':
         return g.add_link(node_a=op['a'], rel=op['rel'], node_b=op['b'], props=dict(op['props']) or None)
     if o == 'update_node_property':
